@@ -6,7 +6,8 @@ from .props import quick, corrupt_first, head_of, bump_big
 def run(run):
     b = lib.build_harness("dev")
     q = quick(run)
-    run.mc("mc/MC_ZonedArith.tla", "mc/MC_ZonedArith.cfg", workers=8, timeout=1500) if not q else None
+    # (no -coverage here: with coverage collection TLC 1.8 spends more than 15 minutes before the first state of this instance)
+    run.mc("mc/MC_ZonedArith.tla", "mc/MC_ZonedArith.cfg", workers=8, timeout=1500, coverage=False) if not q else None
     cases, n = run.gen("mc/MC_ZonedArith.tla", "gen/Gen_C14.cfg", workers=8, name="zoned", timeout=1500)
     run.replay(b, cases, label="zoned")
     run.negative_control_replay(b, cases, corrupt_first(lambda e: e["op"] == "Zoned.startOfDay" and e["out"]["kind"] == "ok", lambda e: e["out"].__setitem__("val", e["out"]["val"] + 3600)), limit=200000)
